@@ -9,7 +9,8 @@ TEXTS = [b"x", b"y", b"z"]
 
 class Gen:
     def __init__(self, rng, feats):
-        self.rng, self.feats, self.h, self.classes = rng, feats, G.History(), set()
+        self.rng, self.feats, self.h = rng, feats, G.History()
+        self.classes = G.ClassSet(self.h)
         self.checks = []
 
     def make_table(self):
@@ -76,8 +77,22 @@ def gen_case(rng, feats):
             h.x("CREATE UNIQUE INDEX ix1 ON t1(b)", "SCreateUnique 1 [1%nat]")
             g.index_live = True
             g.keycols.add(1)
-        mode = rng.choice(["auto", "auto", "auto", "session", "vacuum"] + (["two-sessions"] if "concurrent" in feats else []))
-        if mode == "auto":
+        mode = rng.choice(["auto", "auto", "auto", "session", "vacuum", "rb-delete"] + (["two-sessions"] if "concurrent" in feats else []))
+        if mode == "rb-delete":
+            # a key whose DELETE was rolled back is still taken; a key whose DELETE committed is free again
+            key = rng.randint(1, 6)
+            k = 300 + round_
+            commits = rng.random() < 0.3
+            h.begin(k)
+            where = ("bin", "=", ("col", 0), G.lit_int(key))
+            h.q(k, G.delete_sql(g.t, where), G.delete_coq(g.t, where), sorted_=True)
+            if commits:
+                h.commit(k)
+            else:
+                h.rollback(k, drop=rng.random() < 0.3)
+            rows = [[G.lit_int(key)] + [g.val(i) for i in (1, 2, 3)]]
+            h.x(G.insert_sql(g.t, rows), G.insert_coq(g.t, rows), sorted_=True)
+        elif mode == "auto":
             for _ in range(rng.choice([1, 2, 3])):
                 sql, coq, kind = g.stmt()
                 h.x(sql, coq, sorted_=True)
@@ -117,7 +132,7 @@ def gen_case(rng, feats):
     rust, coq = h.render()
     t = g.t
     uniq = ([t.pk] if t.pk is not None else []) + t.uniq
-    meta = {"classes": sorted(g.classes), "checks": g.checks, "uniq": uniq,
+    meta = {**g.classes.meta(), "checks": g.checks, "uniq": uniq,
             "late": g.late_index, "notnull": [i for i, c in enumerate(t.cols) if c[2] or (t.pk and i in t.pk)]}
     return Case(rust, coq, "history", meta)
 
@@ -135,7 +150,7 @@ def oracle(case, il):
     uniq = [list(u) for u in case.meta["uniq"]]
     for pos in case.meta["checks"]:
         if pos >= len(segs) or not segs[pos].startswith("rows"):
-            return "committed state cannot be read back: %s" % (segs[pos][:100] if pos < len(segs) else "truncated")
+            return ("committed state cannot be read back: %s" % (segs[pos][:100] if pos < len(segs) else "truncated"), pos)
         us = list(uniq)
         if case.meta["late"] and any(a.startswith("X CREATE UNIQUE INDEX") and s == "ddl" for a, s in zip(acts[:pos], segs[:pos])):
             us.append(case.meta["late"])
@@ -143,7 +158,7 @@ def oracle(case, il):
         for r in rows:
             for i in case.meta["notnull"]:
                 if r[i] == "n":
-                    return "NULL in NOT NULL column %d in committed row %s (read %d)" % (i, r, pos)
+                    return ("NULL in NOT NULL column %d in committed row %s (read %d)" % (i, r, pos), pos)
         for u in us:
             seen = set()
             for r in rows:
@@ -151,7 +166,7 @@ def oracle(case, il):
                 if "n" in k:
                     continue
                 if k in seen:
-                    return "two committed rows agree on key columns %s: %s (read %d)" % (u, k, pos)
+                    return ("two committed rows agree on key columns %s: %s (read %d)" % (u, k, pos), pos)
                 seen.add(k)
     return None
 
